@@ -86,7 +86,14 @@ func (f *Frame) applyCall(v ssa.Value, c *ssa.CallCommon, callee *ssa.Function, 
 		return
 	}
 	if callee != nil && callee.Blocks != nil && u.W.inModule(callee) {
-		if f.depth < maxInlineDepth && inlinable(callee) {
+		if u.sweep && u.Prop != "C02" && !returnsVerdict(callee) {
+			// severity/status sweeps only need the helpers that produce verdicts; everything
+			// else is abstracted (result unconstrained, no effect on the lint's own result)
+			u.note("helpers that do not return a verdict are abstracted in the severity/status sweep as deterministic uninterpreted functions of their arguments (read-only, deterministic lint code: C05 frames)")
+			f.abstractCall(v, callee, sig, st, args)
+			return
+		}
+		if f.depth < maxInlineDepth && (inlinable(callee) || (u.sweep && inlinableSweep(callee))) {
 			f.inline(v, callee, args, st, tr)
 			return
 		}
@@ -965,9 +972,9 @@ func (f *Frame) enterLoop(b *ssa.BasicBlock, ls *loopState, preds []*ssa.BasicBl
 		// callee writes only fresh memory: arrays keep old contents at old refs
 		heap = u.newHeap(&Link{kind: "freshonly", parent: heap})
 		delete(mod, "*fresh")
-		heap = u.newHeap(&Link{kind: "loop", parent: heap, mod: mod})
+		heap = u.newHeap(&Link{kind: "loop", parent: heap, mod: mod, keep: append([]string{}, f.localRefs...)})
 	} else {
-		heap = u.newHeap(&Link{kind: "loop", parent: heap, mod: mod})
+		heap = u.newHeap(&Link{kind: "loop", parent: heap, mod: mod, keep: append([]string{}, f.localRefs...)})
 	}
 	for _, phi := range phis {
 		x := u.fresh("loop."+clip(phi.Comment, 16), u.D.SortOf(phi.Type()))
@@ -1301,4 +1308,84 @@ func (f *Frame) atCallAsserts(in ssa.Instruction, what string, st *state) {
 		u.oblige("assert", f.fname, st.cur, t, cl.File+":"+fmt.Sprint(cl.Line), expr)
 		u.assume(st.cur, t)
 	}
+}
+
+
+// inlinableSweep: in schematic mode helpers with loops are inlined too (their loops are
+// cut and havoced like any loop without invariant).
+func inlinableSweep(fn *ssa.Function) bool {
+	if fn.Blocks == nil || len(fn.Blocks) > 120 || fn.Recover != nil {
+		return false
+	}
+	for _, b := range fn.Blocks {
+		for _, in := range b.Instrs {
+			switch in.(type) {
+			case *ssa.Defer, *ssa.Go, *ssa.Select:
+				return false
+			}
+		}
+	}
+	return true
+}
+
+
+// returnsVerdict: the function returns a *lint.LintResult or a lint.LintStatus.
+func returnsVerdict(fn *ssa.Function) bool {
+	rs := fn.Signature.Results()
+	var ts []types.Type
+	for i := 0; i < rs.Len(); i++ {
+		ts = append(ts, rs.At(i).Type())
+	}
+	// out-parameters count as results
+	ps := fn.Signature.Params()
+	for i := 0; i < ps.Len(); i++ {
+		if _, ok := ps.At(i).Type().(*types.Pointer); ok {
+			ts = append(ts, ps.At(i).Type())
+		}
+	}
+	for _, t := range ts {
+		if pt, ok := t.(*types.Pointer); ok {
+			t = pt.Elem()
+		}
+		if n, ok := t.(*types.Named); ok && n.Obj().Pkg() != nil && strings.HasSuffix(n.Obj().Pkg().Path(), "/lint") {
+			if n.Obj().Name() == "LintResult" || n.Obj().Name() == "LintStatus" {
+				return true
+			}
+		}
+	}
+	return false
+}
+
+
+// abstractCall: result_i = abs:<fn>#i(args..., heap version). Same arguments in the same heap
+// state give the same result (the callee is read-only and deterministic by the C05 frame).
+func (f *Frame) abstractCall(v ssa.Value, callee *ssa.Function, sig *types.Signature, st *state, args []Val) {
+	u := f.u
+	var sorts, ts []string
+	ok := true
+	for _, a := range args {
+		if a.T == "" || a.Loc != nil {
+			ok = false
+			break
+		}
+		sorts = append(sorts, u.D.SortOf(a.Typ))
+		ts = append(ts, a.T)
+	}
+	if !ok {
+		f.havocCall(v, sig, st, false, nil, args)
+		return
+	}
+	u.scalar("$hv", "Int")
+	sorts = append(sorts, "Int")
+	ts = append(ts, u.hget(st.heap, "$hv"))
+	var rs []Val
+	for i := 0; i < sig.Results().Len(); i++ {
+		rt := sig.Results().At(i).Type()
+		fn := u.D.Fun(fmt.Sprintf("abs:%s#%d", callee.String(), i), sorts, u.D.SortOf(rt))
+		t := u.define("abs", u.D.SortOf(rt), app(fn, ts...))
+		u.assumeRange(t, rt)
+		u.wellFormedLoaded(st.heap, t, rt)
+		rs = append(rs, Val{T: t, Typ: rt})
+	}
+	f.bindResults(v, rs)
 }
